@@ -365,10 +365,13 @@ class Runner:
         self.record(f"p:{sid}:{self.sh.rank[name]}:{int(acc)}:{','.join(map(str, rows_i))}:{','.join(map(str, cols_i))}:{','.join(map(str, vals))}", sid, status)
         self.tag("put-idx-acc" if acc else "put-idx")
 
-    def op_put_acc(self, sid, name):
+    def op_put_acc(self, sid, name, rows=None):
         torch = self.env["torch"]
         st = self.states[sid]
-        rows = self.random_value(name)
+        if rows is None:
+            rows = self.random_value(name)
+            if self.rng.random() < 0.15:
+                rows = [[0] * len(r) for r in rows]      # adding zero is still an assignment (fork, reset of the children)
         val = rows_tensor(torch, rows, self.sh.level[name])
         status, _ = self.call(lambda: st.put(name, val, accumulate=True))
         self.record(f"pa:{sid}:{self.sh.rank[name]}:{fmt_rows(rows)}", sid, status)
